@@ -19,6 +19,7 @@ Definition c10_class (domain_root : bool) (s b : uri) : N :=
   else if domain_root then
     (if negb (is_host_set s) && negb (absolutePath s) then 3 else 0)          (* host-less rootless source, domain-root mode *)
   else if negb (is_host_set s) && negb (Bool.eqb (absolutePath s) (absolutePath b)) then 4   (* one rooted, one rootless *)
+  else if existsb (fun x => seg_dot x || seg_dotdot x) (pathSegs b) then 8          (* the base path has dot segments *)
   else
     let '(s', b') := skip_common (pathSegs s) (pathSegs b) in
     match s', b' with
